@@ -1,5 +1,6 @@
 import numpy as np
 
+from menpo.base import copy_landmarks_and_path
 from menpo.shape import PointCloud
 from menpo.transform import tcoords_to_image_coords
 
@@ -190,12 +191,15 @@ class TexturedTriMesh(TriMesh):
         trimesh : :map:`TriMesh`
             A new trimesh created from the vector with ``self`` trilist.
         """
-        return TexturedTriMesh(
+        new = TexturedTriMesh(
             flattened.reshape([-1, self.n_dims]),
             self.tcoords.points,
             self.texture,
             trilist=self.trilist,
         )
+        # the landmarks (and path) travel with the mesh, as they do for every
+        # other Vectorizable shape
+        return copy_landmarks_and_path(self, new)
 
     def from_mask(self, mask):
         """
